@@ -702,6 +702,8 @@ def run(ctx):
             # ragged target chunkings are only exercised under the large chunk size (they are independent of the env variable)
             if cs != 4096:
                 cc["tgt_chunks"] = []
+            else:
+                cc["dim_variants"] = ["swap", "rename", "split"]
             if cs == 4096 or cost(m, c, cs) <= budget:
                 sel.append(cc)
         per_cs[cs] = sel
@@ -755,7 +757,7 @@ def replay(ctx, data):
         judge_history(ctx, h, per, coq)
         coq.evaluate(ctx)
         return bool(ctx.failures or ctx.broken)
-    case = data["case"]["case"]
+    case = dict(data["case"]["case"], dim_variants=["swap", "rename", "split"])
     meta = data["case"]["meta"]
     cs_list = data["case"].get("chunk_sizes") or CHUNK_SIZES
     per = {}
@@ -872,6 +874,33 @@ def judge_case(ctx, case, meta, per_cs, coq):
                         fails.append((key + ".chunk_dependent", "%s: index array / result differs from the PYTROLL_CHUNK_SIZE=4096 run at targets %s"
                                       % (label + vlabel, diff[:5])))
             coq.add(ctx, case, meta, cs, which, w, o, msk)
+            # the same field offered with its geo dims in another order / under other names / not adjacent:
+            # a loud error or the right values (of the correctly transposed data), never other values
+            for e in w.get("dim_variants") or []:
+                res = e["res"]
+                vkey = "C05.%s.dim_%s" % (which, {"swap": "order", "rename": "names", "split": "nonadjacent"}[e["kind"]])
+                vlabel = "%s with the data dims given as %s (geometry dims %s)" % (label, e["dims"], meta["s_dims"])
+                coq.add_dims_ok(case, meta, which, e, d["dims"])
+                if "error" in res:
+                    ctx.count("dim_variant_%s_refused" % e["kind"])
+                    ctx.case((cid, which, "dimvar", e["kind"]), nontrivial=True)
+                    continue
+                ctx.count("dim_variant_%s_accepted" % e["kind"])
+                want_dims = d["dims"][:len(meta["lead"])] + ["y", "x"] + d["dims"][len(d["dims"]) - len(meta["trail"]):]
+                tmp = []
+                if sorted(res["dims"]) != sorted(want_dims) or len(res["values"]) != len(w["result"]["values"]):
+                    tmp.append(("x", "%s: result dims %s %s cannot hold the resampled field (%s)" % (vlabel, res["dims"], res["shape"], want_dims)))
+                else:
+                    import numpy as np
+                    arr = np.array(res["values"], dtype=object).reshape(res["shape"]).transpose([res["dims"].index(x) for x in want_dims])
+                    canon = dict(res)
+                    canon["dims"], canon["shape"], canon["values"] = want_dims, [int(x) for x in arr.shape], list(arr.ravel())
+                    judge_result("x", case, meta, canon, tr, tmp, vlabel)
+                if tmp:
+                    fails.append((vkey, tmp[0][1] + " -- accepted instead of refused, and the values are not the numpy result of this field"))
+                ctx.case((cid, which, "dimvar", e["kind"]), nontrivial=True,
+                         sample={"dim_variant": "case %d" % cid, "kind": e["kind"], "resampler": which, "data_dims": e["dims"],
+                                 "geometry_dims": meta["s_dims"], "outcome": "values"})
     if ref and "values" in ref:
         coq.add_numpy(ctx, case, meta, ref)
         coq.add_numpy_valid(case, base)
@@ -897,7 +926,7 @@ def implied_mask(case, meta):
 # ------------------------------------------------------------------------------------------ correspondence
 class CoqCases:
     def __init__(self):
-        self.qnd, self.asm, self.gat, self.npy, self.dims, self.cache = [], [], [], [], [], []
+        self.qnd, self.asm, self.gat, self.npy, self.dims, self.cache, self.dimsok = [], [], [], [], [], [], []
         self.valid = {"chk_vin_legacy": [], "chk_vout_legacy": [], "chk_vin_future": [], "chk_vin_numpy": [], "chk_vout_numpy": []}
 
     def add(self, ctx, case, meta, cs, which, w, o, msk):
@@ -930,6 +959,7 @@ class CoqCases:
                     L, meta["S"], Tr, zl(chunks[0]), zl(chunks[1]), bl(w["vii"]), zl(ia), fill, zl(data), zl([enc(dt, v) for v in res["values"]]),
                     "true"), tag + " gather chunks %s" % (chunks[:2],)))
         if cs == 4096:
+            self.add_dims_ok(case, meta, which, {"dims": d["dims"], "res": w["result"]}, d["dims"])
             # the regenerated validity expressions on the actual binary64 lon/lat against the implementation's masks
             src_pts = mark("[" + ";".join("(%s, %s)" % (fhex(a), fhex(b)) for a, b in zip(o["slon"], o["slat"])) + "]")
             tgt_pts = mark("[" + ";".join("(%s, %s)" % (fhex(a), fhex(b)) for a, b in zip(o["tlon"], o["tlat"])) + "]")
@@ -944,6 +974,14 @@ class CoqCases:
             self.dims.append(("(%s, %s, %s, %s, %s)" % (zl([code[x] for x in d["dims"]]), zl(d["shape"]), zl([code[x] for x in geo]),
                                                        "(%d, %d, %d, %d)" % (code["y"], code["x"], th, tw),
                                                        "(%s, %s)" % (zl([code[x] for x in w["result"]["dims"]]), zl(w["result"]["shape"]))), tag + " dims"))
+
+    def add_dims_ok(self, case, meta, which, e, base_dims):
+        """the geo-dims acceptance test of the resampler: (data dims, geometry dims, accepted?)"""
+        names = sorted(set(e["dims"]) | set(meta["s_dims"]))
+        code = {nm: i for i, nm in enumerate(names)}
+        self.dimsok.append(("(%s, %s, %s)" % (zl([code[x] for x in e["dims"]]), zl([code[x] for x in meta["s_dims"]]),
+                                              "false" if "error" in e["res"] else "true"),
+                            "case %d %s dims %s" % (case["id"], which, e["dims"])))
 
     def add_numpy_valid(self, case, o):
         ref = o["ref"]
@@ -974,7 +1012,8 @@ class CoqCases:
     def evaluate(self, ctx):
         groups = [("qnd", "chk_qnd", self.qnd, "query_no_distance"), ("asm", "chk_assemble", self.asm, "blockwise_assembly"),
                   ("gat", "chk_gather", self.gat, "my_index_gather"), ("npy", "chk_numpy", self.npy, "numpy_pipeline"),
-                  ("dims", "chk_dims", self.dims, "dims_bookkeeping"), ("cache", "chk_cache", self.cache, "cache_history")]
+                  ("dims", "chk_dims", self.dims, "dims_bookkeeping"), ("cache", "chk_cache", self.cache, "cache_history"),
+                  ("dimsok", "chk_dims_ok", self.dimsok, "geo_dims_acceptance")]
         for k, (chk, items) in enumerate(sorted(self.valid.items())):
             groups.append(("val%d" % k, chk, items, "generated_validity_test"))
         texts = []
